@@ -51,6 +51,7 @@ type sched struct {
 func newMainGoroutine(m *machine) *gor {
 	g := &gor{id: 0, resume: make(chan bool, 1), isMain: true}
 	m.sch = &sched{m: m, gs: []*gor{g}}
+	m.ranThreads = false
 	return g
 }
 
@@ -65,6 +66,7 @@ func runMain(m *machine, g *gor, fn *ssa.Function) {
 			}
 		}
 		s.wg.Wait()
+		m.ranThreads = len(s.gs) > 1 // panics (deadlocks included) are recorded after this point
 		m.sch = nil
 	}()
 	fr := &frame{i: m, g: g}
